@@ -12,6 +12,7 @@ fn main() {
     let code = match args[1].as_str() {
         "C01" => c01::run(tier),
         "C02" => c02::run(tier),
+        "C03" => fsx::c03(tier),
         "C04" => c04::run(tier),
         "C05" => csem::c05(tier),
         "C06" => csem::c06(tier),
@@ -20,6 +21,10 @@ fn main() {
         "C09" => csem::c09(tier),
         "C04-child" => c04::child(tier, args.get(3).map(|s| s.as_str()).unwrap_or("?")),
         "C10" => c10::run(tier),
+        "C11" => report::c11_c12("C11", tier),
+        "C12" => report::c11_c12("C12", tier),
+        "C13" => report::c13(tier),
+        "C16" => fsx::c16(tier),
         "C17" => c17::run(tier),
         "C19" => c19::run(tier),
         other => {
